@@ -19,11 +19,11 @@ from checks import reqgen as rg
 
 KINDS = ['served', 'served_bidir', 'served_slots', 'agg2', 'agg3', 'no_path_constraint', 'no_baudrate', 'no_feasible_mode',
          'mode_not_feasible', 'mode_not_feasible_rev', 'no_spectrum', 'not_enough_reserved', 'served_bidir2', 'twin_tx_lo',
-         'twin_tx_hi']
+         'twin_tx_hi', 'served_n0']
 MARGIN = 2
 
 
-def library(thresholds=None):
+def library(thresholds=None, osnr_shift=0.0):
     eq = c.eqpt_json('test')
     eq['SI'][0]['sys_margins'] = MARGIN
     eq['SI'][0]['f_max'] = 193.1e12
@@ -47,6 +47,10 @@ def library(thresholds=None):
         {'type_variety': 'T_none', 'frequency': {'min': 191.35e12, 'max': 193.1e12}, 'mode': [
             mode('n1', 32e9, 100e9, 50e9, 60), mode('n2', 64e9, 200e9, 75e9, 62)]},
     ]
+    for t in eq['Transceiver']:
+        if t['type_variety'] in ('T', 'T_none'):
+            for m in t['mode']:
+                m['OSNR'] = m['OSNR'] + osnr_shift      # another library using the same type and mode names
     for r in eq['Roadm']:
         r['pdl'] = 0.5
         r['pmd'] = 1e-12
@@ -90,6 +94,9 @@ def requests_for(kind, tag):
         # twins: identical in everything but the transmitter output power, so they are NOT identical requests
         return [R(f'{tag}w', 'trx B', 'trx A', trx_type='T', mode='ok2', bandwidth=100e9,
                   tx_power=1e-6 if kind == 'twin_tx_lo' else 5e-4)]
+    if kind == 'served_n0':
+        # slot centred exactly on the anchor frequency of the grid (N = 0)
+        return [R(f'{tag}z', 'trx A', 'trx B', trx_type='T', mode='ok2', bandwidth=100e9, n=0, m=4)]
     if kind == 'served_slots':
         return [R(f'{tag}m', 'trx A', 'trx B', trx_type='T', mode='ok', bandwidth=200e9,
                   slots=[{'N': -200, 'M': 4}, {'N': None, 'M': None}])]
@@ -346,6 +353,28 @@ def run_case(case):
                   f'{row["min required OSNR (inc. margin)"]}')
                 break
         tags['csv-threshold-probe'] = 1
+    # the same response exported against another library that uses the same type / mode names with other thresholds
+    if any('path-properties' in r for r in responses):
+        equipment2 = c.make_equipment(library(th, osnr_shift=1.5))
+        buf = io.StringIO()
+        jsontocsv(resp, equipment2, buf)
+        for row in csv.DictReader(io.StringIO(buf.getvalue())):
+            r = next((x for x in responses if x['response-id'] == row['response-id']), None)
+            if r is None or 'path-properties' not in r:
+                continue
+            tspo = next(o['path-route-object']['transponder'] for o in r['path-properties']['path-route-objects']
+                        if 'transponder' in o['path-route-object'])
+            mode2 = next(m for m in equipment2['Transceiver'][tspo['transponder-type']].mode
+                         if m['format'] == tspo['transponder-mode'])
+            thr2 = mode2['OSNR'] + margin
+            low = next(m['accumulative-value'] for m in r['path-properties']['path-metric'] if m['metric-type'] == 'lowest_SNR-0.1nm')
+            transitions += 1
+            if abs(float(row['min required OSNR (inc. margin)']) - thr2) > 1e-9 or row['Pass?'] != str(low >= thr2):
+                v('csv-uses-another-library', f'response {r["response-id"]} exported against a second library (mode OSNR '
+                  f'{mode2["OSNR"]}): threshold column {row["min required OSNR (inc. margin)"]}, Pass? {row["Pass?"]}; expected '
+                  f'{thr2} / {low >= thr2}')
+                break
+        tags['csv-second-library'] = 1
     return {'violations': viol[:8], 'transitions': transitions, 'traces': 0 if viol else 1,
             'nontrivial': len(set(case['kinds'])) > 1 or 'agg' in ''.join(case['kinds']) or 'bidir' in ''.join(case['kinds']),
             'tags': tags, 'outcomes': [k for k in tags if k.startswith('outcome:')], 'sample': case}
